@@ -12,6 +12,7 @@ HOOKS = {
     "DOO": lambda: monitors.sweep_hooks("DOO"),
     "StoSOO": lambda: monitors.sweep_hooks("StoSOO"),
     "SequOOL": lambda: monitors.sequool_hooks(),
+    "Zooming": lambda: monitors.zooming_hooks(),
     "POO": lambda: monitors.poo_hooks(),
     "GPO": lambda: monitors.gpo_hooks("GPO"),
     "PCT": lambda: monitors.gpo_hooks("PCT"),
